@@ -15,7 +15,7 @@ import (
 func init() {
 	core.Register(&core.Prop{
 		ID: "C15",
-		Rule: "case = one base geometry of one of the eight types (5% of the multi-part bases have 60..140 members, 12% store one member two or three times as exact copies; members in distinct cells, distinct vertices >= 200 tol apart, every ring closed with a unique smallest-X anchor vertex) and ~40 derived partners with a truth value known by construction: positives = every coordinate perturbed by < 0.9 tol, combined with member/ring/item permutations and ring-start rotations; negatives = other type (all 56 ordered type pairs), member inserted/deleted (also empty members), vertex inserted/deleted, line string reversed, one vertex displaced by 1.5-100 tol; every pair is evaluated in both directions (symmetry), plus unrelated random pairs; " +
+		Rule: "case = one base geometry of one of the eight types (5% of the multi-part bases have 60..140 members, 12% store one member two or three times as exact copies; members in distinct cells, distinct vertices >= 200 tol apart, every ring closed with a unique smallest-X anchor vertex) and ~40 derived partners with a truth value known by construction: positives = every coordinate perturbed by < 0.9 tol, combined with member/ring/item permutations and ring-start rotations; negatives = other type (all 56 ordered type pairs), member inserted/deleted (also empty members), a ring moved from one polygon of a multi-polygon to a sibling, vertex inserted/deleted, line string reversed, one vertex displaced by 1.5-100 tol; every pair is evaluated in both directions (symmetry), plus unrelated random pairs; " +
 			"an evaluation is one ordered Similar call judged; non-trivial = derived pair (distinct by hash of both geometries)",
 		Assumptions: []string{"distinct members separated by >> tol so that matching is unambiguous (as the property states)", "rings are closed; the anchor (smallest X) is unique by >= 200 tol so that a legal perturbation cannot move it"},
 		Phases: []core.Phase{{Name: "pairs", NumCases: func(t string) int {
@@ -27,7 +27,7 @@ func init() {
 		Run: run,
 		Floors: func(t string) map[string]int64 {
 			m := map[string]int64{"pos.perturbed": 5000, "pos.permuted": 2000, "pos.ring_rotated": 1000, "neg.type": 5000, "neg.member_inserted": 1000, "neg.member_deleted": 1000, "neg.vertex_inserted": 1000,
-				"neg.vertex_deleted": 1000, "neg.reversed": 300, "neg.displaced": 2000, "unrelated": 1000, "base.many_members_60_to_140": 100, "base.with_duplicate_member": 300}
+				"neg.vertex_deleted": 1000, "neg.reversed": 300, "neg.displaced": 2000, "unrelated": 1000, "base.many_members_60_to_140": 100, "base.with_duplicate_member": 300, "neg.ring_moved_to_sibling_polygon": 300}
 			for _, n := range typeNames {
 				m["base."+n] = 100
 			}
@@ -322,6 +322,41 @@ func (b *builder) negatives(g geom.Geom) []neg {
 			}
 			return p
 		})})
+	}
+	// a ring moved from one member polygon to a sibling (same number of polygons, same rings
+	// overall, but the members' ring counts differ)
+	moveRing := func(mp geom.MultiPolygon) (geom.MultiPolygon, bool) {
+		if len(mp) < 2 {
+			return nil, false
+		}
+		o := gen.DeepCopy(mp).(geom.MultiPolygon)
+		from := r.Intn(len(o))
+		if len(o[from]) == 0 {
+			return nil, false
+		}
+		to := (from + 1 + r.Intn(len(o)-1)) % len(o)
+		k := r.Intn(len(o[from]))
+		ring := o[from][k]
+		o[from] = append(o[from][:k:k], o[from][k+1:]...)
+		o[to] = append(o[to], ring)
+		return o, true
+	}
+	switch t := g.(type) {
+	case geom.MultiPolygon:
+		if h, ok := moveRing(t); ok {
+			out = append(out, neg{label: "ring_moved_to_sibling_polygon", h: h})
+		}
+	case geom.GeometryCollection:
+		for i, m := range t {
+			if mp, ok := m.(geom.MultiPolygon); ok {
+				if h, ok := moveRing(mp); ok {
+					o := gen.DeepCopy(t).(geom.GeometryCollection)
+					o[i] = h
+					out = append(out, neg{label: "ring_moved_to_sibling_polygon", h: o})
+					break
+				}
+			}
+		}
 	}
 	if ed := editablePaths(g); len(ed) > 0 {
 		// vertex inserted / deleted
